@@ -3,6 +3,7 @@ CONSTANTS
   FlagNames = {"a", "b", "c"}
   MaxTok = 2
   LitChars = {39}
+  AllUserSets = TRUE
   Export = TRUE
 INVARIANT TypeOK
 INVARIANT AcyclicReachesExpansion
